@@ -98,6 +98,11 @@ def run(ctx):
         if 'ops' not in sp['opts']:
             rng = random.Random(str(sp['seed']) + '/ops')
             sp['opts']['grids'] = grid_variants(sp, rng)
+            for a in sp['assets']:
+                # user data as numpy arrays (the form the docstrings name), kept by reference by the assets
+                for key in ('max_take', 'min_take', 'min_cap', 'max_cap', 'extra_costs'):
+                    if isinstance(a.get(key), dict) and rng.random() < 0.5:
+                        a[key]['as_array'] = True
             sp['opts']['ops'] = gen_ops(sp, rng, len(sp['opts']['grids']))
     specs = ctx.specs(specs)
     res = C.run_impl('purity', specs)
